@@ -57,6 +57,8 @@ structure LProp where
   shape : List Nat
   isInt : Bool
   vals : List (List Rat)
+  /-- numpy dtype `bool` (every cell a `True` / `False` token, nothing converted); values are kept as `1` / `0` -/
+  isBool : Bool := false
 deriving Repr, DecidableEq
 
 /-- what `load` returns (the part the property speaks about). `props` starts with `atype` and `pos`. -/
@@ -142,24 +144,39 @@ def resolveCol (u : Units) (c : ColSpec) : Res PCol := do
 
 /-! ### table values -/
 
-/-- a cell as pandas types it: an integer token or a float token. -/
+/-- a cell as pandas types it: an integer token, a float token or a boolean token. -/
 inductive Val where
   | int (i : Int)
   | num (q : Rat)
+  | bool (b : Bool)
 deriving Repr, DecidableEq
 
 def Val.toRat : Val → Rat
   | .int i => (i : Rat)
   | .num q => q
+  | .bool b => if b then 1 else 0
 
 def Val.isInt : Val → Bool
   | .int _ => true
-  | .num _ => false
+  | _ => false
+
+def Val.isBool : Val → Bool
+  | .bool _ => true
+  | _ => false
+
+/-- the tokens pandas' C parser takes as booleans (a column made of them only has dtype `bool`). -/
+def parseBoolTok? (t : Tok) : Option Bool :=
+  if t = cs!"True" ∨ t = cs!"true" ∨ t = cs!"TRUE" then some true
+  else if t = cs!"False" ∨ t = cs!"false" ∨ t = cs!"FALSE" then some false
+  else none
 
 def parseVal? (t : Tok) : Option Val :=
   match parseInt? t with
   | some i => some (.int i)
-  | none => (parseNum? t).map .num
+  | none =>
+    match parseNum? t with
+    | some q => some (.num q)
+    | none => (parseBoolTok? t).map .bool
 
 def parseVal (t : Tok) : Res Val :=
   match parseVal? t with
@@ -212,24 +229,38 @@ def splitCols : List PCol → List Val → List (List Val)
   | [], _ => []
   | c :: cs, r => r.take c.names.length :: splitCols cs (r.drop c.names.length)
 
+/-- `box.position_relative_to_cartesian` of an array whose last dimension is 3: every consecutive triple of the
+    (row-major) cells is one relative position. -/
+def scaledCells (box : Box Rat) : List Rat → Res (List Rat)
+  | [] => pure []
+  | a :: b :: c :: rest => do
+    let p := box.relToCart ⟨a, b, c⟩
+    let r ← scaledCells box rest
+    pure (p.x :: p.y :: p.z :: r)
+  | _ => throw "value"
+
 /-- unit / scaled conversion of one atom's cells of one property (`uc.set_in_units`,
     `box.position_relative_to_cartesian`). -/
 def convertCells (box : Box Rat) (un : LUnit) (cells : List Val) : Res (List Rat) :=
   match un with
   | .none => pure (cells.map Val.toRat)
   | .factor f => pure (cells.map fun v => v.toRat * f)
-  | .scaled =>
-    match cells with
-    | [a, b, c] => let p := box.relToCart ⟨a.toRat, b.toRat, c.toRat⟩; pure [p.x, p.y, p.z]
-    | _ => throw "value"
+  | .scaled => scaledCells box (cells.map Val.toRat)
 
-/-- the value array of one property: `df[names].values.reshape((natoms,) + shape)` then conversion. The
-    dtype stays integer exactly when every cell is an integer token and nothing was converted. -/
+/-- the value array of one property: `df[names].values.reshape((natoms,) + shape)` then conversion.  The shape
+    of the loaded property is the shape of the `prop_info` entry, whatever it is (`()` and `(1,)` and `(1,1)` are
+    three different shapes over one column).  `scaled` needs a last dimension of 3.  The dtype stays integer
+    (boolean) exactly when every cell is an integer (boolean) token and nothing was converted; a property whose
+    cells mix boolean with numeric tokens would be a numpy object array: not modelled (refused). -/
 def propOfColumn (box : Box Rat) (c : PCol) (cells : List (List Val)) : Res LProp := do
   if shapeProd c.shape ≠ c.names.length then throw "value"
-  if c.unit = .scaled ∧ c.shape ≠ [3] then throw "value"
+  if c.unit = .scaled ∧ c.shape.getLast? ≠ some 3 then throw "value"
+  let anyBool := cells.any (·.any Val.isBool)
+  let allBool := cells.all (·.all Val.isBool)
+  if anyBool ∧ ¬ allBool then throw "value"
   let vals ← cells.mapM (convertCells box c.unit)
-  pure { name := c.prop, shape := c.shape, isInt := c.unit = .none && cells.all (·.all Val.isInt), vals := vals }
+  pure { name := c.prop, shape := c.shape, isInt := c.unit = .none && cells.all (·.all Val.isInt), vals := vals,
+         isBool := c.unit = .none && allBool && anyBool }
 
 /-- first-dimension rule of `Atoms.view[name] = value`: `natoms` rows, or one row that is broadcast. -/
 def fitRows (n : Nat) (vals : List (List Rat)) : Res (List (List Rat)) :=
@@ -245,7 +276,8 @@ def assignProp (s : Loaded) (p : LProp) : Res Loaded := do
     if !(p.isInt ∧ p.shape = [] ∧ vals.all fun v => decide (1 ≤ v.headD 0)) then throw "value"
   if p.name = "pos" then
     if p.shape ≠ [3] then throw "value"
-  let p' : LProp := { p with vals := vals, isInt := if p.name = "pos" then false else p.isInt }
+  let p' : LProp := { p with vals := vals, isInt := if p.name = "pos" then false else p.isInt,
+                             isBool := if p.name = "pos" then false else p.isBool }
   pure { s with props := setProp p' s.props }
 
 def assignCols (box : Box Rat) : List PCol → List (List (List Val)) → Loaded → Res Loaded
